@@ -120,43 +120,44 @@ theorem PreClose.of_core {s s' : St} {t : Tid} {c : Cont} (h : core s' = core s)
   exact ⟨by rw [h1]; exact p.closed, by rw [h2]; exact p.stage, by rw [h4]; exact p.phase0, by rw [h3]; exact p.qclosed⟩
 
 /-- **Proof rule for the close body.** To show `Q` of the state in which `execClose` stops, it is enough that `P` is kept
-    by the stage bookkeeping and that `Q` holds where the closer suspends, where the body ends, and (vacuously) where
-    the fuel would run out. -/
+    by the stage bookkeeping and that `Q` holds where the closer suspends and where the body ends. -/
 theorem execClose_rule (cfg : Cfg) (t : Tid) (c : Cont) (P Q : St → Prop)
     (hd : ∀ s, P s → P { s with dispSet := false })
     (hr : ∀ s, P s → P { s with rStopped := true })
     (hsusp : ∀ s x pc, P s → stopTarget pc = some x → x ≠ t → alive (s.status x) = true → Q (suspendOn s t x pc c))
-    (htail : ∀ s, P s → Q (closeTail cfg s t c))
-    (hfuel : ∀ s, P s → Q s) :
-    ∀ (fuel pc : Nat) (s : St), P s → Q (execClose cfg s t c fuel pc) := by
-  intro fuel
-  induction fuel with
-  | zero => intro pc s p; exact hfuel s p
-  | succ fuel ih =>
-    intro pc s p
-    unfold execClose
-    cases hst : stopTarget pc with
-    | some x =>
-      simp only
-      split
-      · exact ih 6 s p
-      · split
-        · apply ih
-          have p2 : P (if pc = 0 then { s with dispSet := false } else s) := by
-            split
-            · exact hd s p
-            · exact p
-          split
-          · exact hr _ p2
-          · exact p2
-        · rename_i hx
-          simp only [Bool.or_eq_true, decide_eq_true_eq, Bool.not_eq_true', not_or] at hx
-          exact hsusp s x pc p hst hx.1 (by simpa using hx.2)
-    | none =>
-      simp only
-      split
-      · exact ih 6 _ (hr s p)
-      · exact htail s p
+    (htail : ∀ s, P s → Q (closeTail cfg s t c)) :
+    ∀ (pc : Nat) (s : St), P s → Q (execClose cfg s t c pc) := by
+  have stage : ∀ (s : St) (j : Nat) (x : Tid) (next : St → St), stopTarget j = some x → P s →
+      (∀ s', P s' → Q (next s')) → Q (stopStage s t c j x next) := by
+    intro s j x next hj p hn
+    unfold stopStage
+    split
+    · exact hn s p
+    · rename_i hx
+      simp only [Bool.or_eq_true, decide_eq_true_eq, Bool.not_eq_true', not_or] at hx
+      exact hsusp s x j p hj hx.1 (by simpa using hx.2)
+  have h6 : ∀ s, P s → Q (ec6 cfg t c s) := fun s p => htail s p
+  have h5 : ∀ s, P s → Q (ec5 cfg t c s) := fun s p => h6 _ (hr s p)
+  have h4 : ∀ s, P s → Q (ec4 cfg t c s) := by
+    intro s p
+    unfold ec4
+    split
+    · exact h6 s p
+    · exact stage s 4 .R _ rfl p h5
+  have h3 : ∀ s, P s → Q (ec3 cfg t c s) := fun s p => stage s 3 .M _ rfl p h4
+  have h2 : ∀ s, P s → Q (ec2 cfg t c s) := fun s p => stage s 2 .L _ rfl p h3
+  have h1 : ∀ s, P s → Q (ec1 cfg t c s) := fun s p => stage s 1 .V _ rfl p h2
+  have h0 : ∀ s, P s → Q (ec0 cfg t c s) := fun s p => stage s 0 .D _ rfl p (fun s' p' => h1 _ (hd s' p'))
+  intro pc s p
+  unfold execClose
+  split
+  · exact h0 s p
+  · exact h1 s p
+  · exact h2 s p
+  · exact h3 s p
+  · exact h4 s p
+  · exact h5 s p
+  · exact h6 s p
 
 theorem closeTail_InvA {cfg : Cfg} {s : St} {t : Tid} {c : Cont} (p : PreClose s t c) : InvA cfg (closeTail cfg s t c) := by
   unfold closeTail
@@ -185,9 +186,9 @@ theorem closeTail_InvA {cfg : Cfg} {s : St} {t : Tid} {c : Cont} (p : PreClose s
         show monRun (((s.emit .tclose).emit .cbEnter).trace ++ [.cbExit]) = phaseOf cfg .finished
         rw [monRun_append, ph2]; simp [phaseOf, hcb', mon], by simp⟩
 
-theorem execClose_InvA (cfg : Cfg) (t : Tid) (c : Cont) (fuel pc : Nat) (s : St) (p : PreClose s t c) :
-    InvA cfg (execClose cfg s t c fuel pc) := by
-  refine execClose_rule cfg t c (fun s => PreClose s t c) (InvA cfg) ?_ ?_ ?_ ?_ ?_ fuel pc s p
+theorem execClose_InvA (cfg : Cfg) (t : Tid) (c : Cont) (pc : Nat) (s : St) (p : PreClose s t c) :
+    InvA cfg (execClose cfg s t c pc) := by
+  refine execClose_rule cfg t c (fun s => PreClose s t c) (InvA cfg) ?_ ?_ ?_ ?_ pc s p
   · intro s p; exact ⟨p.closed, p.stage, p.phase0, p.qclosed⟩
   · intro s p; exact ⟨p.closed, p.stage, p.phase0, p.qclosed⟩
   · intro s x pc p _ _ _
@@ -199,9 +200,6 @@ theorem execClose_InvA (cfg : Cfg) (t : Tid) (c : Cont) (fuel pc : Nat) (s : St)
     · show monRun (s.cancelTask x).trace = phaseOf cfg (.body t (pc + 1) c)
       rw [hc.2.2.2]; exact p.phase0
   · intro s p; exact closeTail_InvA p
-  · intro s p
-    obtain ⟨pc0, hs⟩ := p.stage
-    exact ⟨by simp [p.closed, hs], fun _ => p.qclosed, by rw [p.phase0, hs]; rfl, by simp [hs]⟩
 
 theorem enterClose_InvA {cfg : Cfg} {s : St} (i : InvA cfg s) (t : Tid) (c : Cont) :
     InvA cfg (enterClose cfg s t c) := by
